@@ -332,6 +332,13 @@ func body(c *sched.Ctl, cs Case, v *ev.Verdict) {
 				for _, j := range js {
 					j.enqueued = true
 				}
+				// the batch slice is the caller's: a queue that is handed a slice only reads it
+				for k, f := range fns {
+					if (f == nil) != js[k].isNil {
+						fail("conc:batch-modified", "Enqueue(%d jobs...) changed the caller's slice: entry %d is nil=%v, it was nil=%v", len(fns), k, f == nil, js[k].isNil)
+						break
+					}
+				}
 				hm.Unlock()
 				checkPair(fmt.Sprintf("Enqueue(%d jobs)", len(fns)), qd, rn)
 			})
